@@ -1,13 +1,14 @@
 package main
 
 import (
-	"os"
 	"bytes"
 	"errors"
 	"fmt"
 	"io"
+	"os"
 	"sort"
 	"strings"
+	"sync/atomic"
 	"time"
 
 	mail "github.com/wneessen/go-mail"
@@ -46,25 +47,30 @@ func parseGuarded(f func() (*mail.Msg, error)) (m *mail.Msg, err error, pan inte
 		}()
 		m, err = f()
 	}()
+	// (a parser that does not return keeps a processor busy: after twelve of them the suite stops, see watchdog)
+	if atomic.LoadInt32(&watchdogExpired) >= 12 {
+		panic(suiteStop{"twelve calls into the library did not return: the suite stops here (its findings so far are reported)"})
+	}
 	select {
 	case <-done:
 	case <-time.After(3 * time.Second):
 		timeout = true
+		atomic.AddInt32(&watchdogExpired, 1)
 	}
 	return
 }
 
 var paramMutations = []func(r *Rng, s string) string{
-	func(r *Rng, s string) string { return s[:r.Intn(len(s)+1)] },                         // truncate
-	func(r *Rng, s string) string { return strings.Replace(s, "\"", "", r.Intn(3)) },      // unquote
-	func(r *Rng, s string) string { return strings.Replace(s, "=", "=\"", 1) },            // open quote
-	func(r *Rng, s string) string { return strings.Replace(s, "; ", ";", -1) + ";" },      // separators
-	func(r *Rng, s string) string { return s + "; filename=" },                            // empty parameter
-	func(r *Rng, s string) string { return s + "; filename=x" },                           // one-byte unquoted
-	func(r *Rng, s string) string { return s + "; filename=\"" },                          // lone quote
-	func(r *Rng, s string) string { return s + "; " + s },                                 // duplicated
+	func(r *Rng, s string) string { return s[:r.Intn(len(s)+1)] },                           // truncate
+	func(r *Rng, s string) string { return strings.Replace(s, "\"", "", r.Intn(3)) },        // unquote
+	func(r *Rng, s string) string { return strings.Replace(s, "=", "=\"", 1) },              // open quote
+	func(r *Rng, s string) string { return strings.Replace(s, "; ", ";", -1) + ";" },        // separators
+	func(r *Rng, s string) string { return s + "; filename=" },                              // empty parameter
+	func(r *Rng, s string) string { return s + "; filename=x" },                             // one-byte unquoted
+	func(r *Rng, s string) string { return s + "; filename=\"" },                            // lone quote
+	func(r *Rng, s string) string { return s + "; " + s },                                   // duplicated
 	func(r *Rng, s string) string { return strings.Replace(s, "boundary=", "boundary", 1) }, // broken boundary parameter
-	func(r *Rng, s string) string { return "" },                                           // emptied
+	func(r *Rng, s string) string { return "" },                                             // emptied
 	func(r *Rng, s string) string { return strings.Repeat(";", r.Intn(5)) + s },
 	func(r *Rng, s string) string { return strings.Replace(s, "base64", "quoted-printable", 1) }, // encoding mismatch
 	func(r *Rng, s string) string { return strings.Replace(s, "quoted-printable", "base64", 1) },
@@ -100,6 +106,22 @@ var paramMutations = []func(r *Rng, s string) string{
 		}
 		i := r.Intn(len(s) + 1)
 		return s[:i] + pr[0] + s[i:] + pr[1]
+	},
+	// hundreds of parameters / separators in one value (counters and indexes of small types wrap at 256)
+	func(r *Rng, s string) string {
+		n := []int{254, 255, 256, 257, 300, 1000, 70000}[r.Intn(7)]
+		switch r.Intn(3) {
+		case 0:
+			return s + strings.Repeat(";", n)
+		case 1:
+			var b strings.Builder
+			b.WriteString(s)
+			for k := 0; k < n; k++ {
+				fmt.Fprintf(&b, "; p%d=v%d", k, k)
+			}
+			return b.String()
+		}
+		return s + "; filename=\"" + strings.Repeat("n", n) + "\""
 	},
 	func(r *Rng, s string) string { return s + " (comment)" },
 	func(r *Rng, s string) string { return s + " (unterminated" },
@@ -378,6 +400,11 @@ func roundtripCase(c *Ctx) {
 	for i := 0; i < nf; i++ {
 		spc.Files = append(spc.Files, FileSpec{Attach: r.Chance(70), Name: c10Names[r.Intn(len(c10Names))], Content: genBody(r, genLen(r, 200))})
 	}
+	roundtripCheck(c, spc, subject)
+}
+
+// roundtripCheck: render, parse, compare field by field, render the parsed message again and read it
+func roundtripCheck(c *Ctx, spc *MsgSpec, subject string) {
 	m, _, err := spc.Build()
 	if err != nil {
 		return
@@ -541,7 +568,20 @@ func init() {
 				if r.Chance(15) {
 					v = genText(r, 6)
 				}
-				h, opts := mail.VerifParseMultiPartHeader(v)
+				var h string
+				var opts map[string]string
+				var pan interface{}
+				if !watchdog(5*time.Second, func() {
+					defer func() { pan = recover() }()
+					h, opts = mail.VerifParseMultiPartHeader(v)
+				}) {
+					c.Violate("c09-hang", "parseMultiPartHeader did not return within 5 s", map[string]interface{}{"value": v})
+					continue
+				}
+				if pan != nil {
+					c.Violate("c09-panic", fmt.Sprintf("parseMultiPartHeader panicked: %v", pan), map[string]interface{}{"value": v})
+					continue
+				}
 				var kvs []string
 				for k, val := range opts {
 					kvs = append(kvs, k+"="+val)
